@@ -9,9 +9,10 @@ VERIF = os.path.dirname(os.path.dirname(os.path.abspath(__file__)))
 
 
 class StreamSet:
-    def __init__(self, name, cfg, cases, extra_defs=(), tag="", timeout=20, env=None):
+    def __init__(self, name, cfg, cases, extra_defs=(), tag="", timeout=20, env=None, phase2=None):
         self.name, self.cfg, self.cases = name, cfg, cases
         self.extra_defs, self.tag, self.timeout, self.env = tuple(extra_defs), tag, timeout, env
+        self.phase2 = phase2
 
 
 class PropSpec:
@@ -530,10 +531,17 @@ def c07_streams(tier, rng):
     out = [StreamSet("lifecycle", "asan", kind_cases(tier, rng, ALL_KINDS, fn, battery=bat, name="m"), timeout=60)]
     # growth paths: MEMALLOC overridden through the hook so that every doubling is taken with small inputs
     growk = FC_KINDS + ["HASHHF"]
+    # large buckets of poorly compressible strings: many Re-Pair / Huffman symbols per bucket relative to maxlength
+    dense = [("dense400", gen.g2_dict(r, 400, 26, "mid")), ("dense253", gen.g2_dict(r, 300, 253, "mid"))]
     for mem in ((1, 2, 7, 64) if thorough else (1, 7)):
         gb = [x for x in bat if x[0] not in ("many",)]
         cs = kind_cases(tier, rng.fork("mem%d" % mem), growk, lambda k, pv, S, r: all_query_ops(k, pv, S, r, cap=4),
                         phases=("built",), battery=gb, name="g%d" % mem)
+        for dname, S in dense:
+            for kind in FC_KINDS:
+                for b in (16, 32, 64, 128, len(S)):
+                    cs.append(("gd%d_%s_%s_b%d" % (mem, dname, kind, b), "dict", kind, {"b": b}, S,
+                               all_query_ops(kind, {"b": b}, S, rng.fork(dname + kind), cap=6) + [["tabx"], ["resave", 1]]))
         out.append(StreamSet("memalloc%d" % mem, "asan", cs, extra_defs=("-DLIBCSD_VERIF_MEMALLOC=%d" % mem,), tag="_mem%d" % mem, timeout=60))
     return out
 
@@ -622,3 +630,252 @@ PROPS["C11"] = PropSpec(c11_streams,
                         ["a lock-discipline theorem about a model cannot see an access the model does not have; TSan sees only the schedules run"],
                         "lock discipline of the pool model (every shared location is accessed under its lock or ordered by create/join); TSan on the real threads",
                         ["ThreadSanitizer's happens-before detection"])
+
+
+# --------------------------------------------------------------------------- C18 / C19 / C20 component streams
+def freq_vectors(tier, rng):
+    """Frequency vectors over 256 symbols, all >= 1 (the dictionaries replace zeros by ones)."""
+    r = rng.fork("freq")
+    thorough = tier == "thorough"
+    out = []
+    out.append(("uniform", [1] * 256))
+    out.append(("uniform7", [7] * 256))
+    for ratio in (1.02, 1.05, 1.5, 3.0):
+        # geometric growth, capped so that the total stays below 2^31 and the depth below 32
+        cap = {1.02: 1e9, 1.05: 4e5, 1.5: 3e5, 3.0: 3e5}[ratio]
+        v, x = [], 1.0
+        for i in range(256):
+            v.append(max(1, int(x)))
+            x = min(x * ratio, cap)
+        out.append(("geo%s" % ratio, v))
+        out.append(("geo%srev" % ratio, list(reversed(v))))
+    # Fibonacci prefixes: long codewords (depth 17..30 stays within the 32-bit codeword)
+    for k in (17, 24, 30):
+        fib = [1, 1]
+        while len(fib) < k:
+            fib.append(fib[-1] + fib[-2])
+        v = [1] * 256
+        pos = r.sample(range(256), k)
+        for p_, f in zip(pos, fib):
+            v[p_] = f
+        out.append(("fib%d" % k, v))
+    v = [1] * 256
+    v[r.below(256)] = 10 ** 6
+    out.append(("dominant", v))
+    v = [1] * 256
+    v[0] = 5000
+    v[97] = 9000
+    out.append(("text-like", v))
+    for i in range(40 if thorough else 10):
+        mode = r.below(3)
+        if mode == 0:
+            v = [1 + r.below(1000) for _ in range(256)]
+        elif mode == 1:
+            v = [1 + (r.below(100000) if r.chance(1, 8) else 0) for _ in range(256)]
+        else:
+            v = [1 + (r.below(1 << r.range(1, 18))) for _ in range(256)]
+        out.append(("rand%d" % i, v))
+    return out
+
+
+def codes_phase2(case, impl_lines):
+    ops = []
+    for l in impl_lines:
+        t = l.split()
+        if len(t) >= 4 and t[1] == "CT":
+            ops.append(["ctchk", t[2], t[3]])
+        elif not l.startswith("FAULT"):
+            ops.append(["ctchk", "?", "-"])
+    while len(ops) < len(case[5]):
+        ops.append(["ctchk", "?", "-"])
+    return ops
+
+
+def c18_streams(tier, rng):
+    cases = []
+    for name, v in freq_vectors(tier, rng):
+        fs = ",".join(str(x) for x in v)
+        cases.append(("ct_%s" % name, "codes", "-", {}, [], [["hu", fs], ["hf", fs]]))
+    # the dictionaries that decode through the chunk table: every answer goes through encode/decode
+    def fn(kind, pv, S, r):
+        return c01_ops(kind, pv, S, r) + c04_ops(kind, pv, S, r)[:8] + [["tabs"]]
+    dcases = kind_cases(tier, rng, ["HTFC", "HHTFC", "RPHTFC", "HASHHF", "HASHUFFDAC"], fn, battery=small_battery(tier, rng, 30 if tier == "thorough" else 12), name="t")
+    # strings whose codewords exceed the 16-bit chunk: rare bytes in a skewed text
+    r = rng.fork("longcw")
+    common = [bytes([0x61]) * k for k in range(1, 60)]
+    rare = sorted(set(bytes(r.sample(range(0x80, 0xF0), 5)) for _ in range(12)))
+    S = sorted(set(common + rare))
+    for kind in ("HTFC", "HHTFC", "HASHHF", "HASHUFFDAC"):
+        for pv in ({"b": 3, "ov": 25}, {"b": 8, "ov": 0}):
+            for ph, pre in (("b", []), ("l", [["reload", "own", 1]])):
+                ops = pre + [["loc" if kind in EXACT_ID_KINDS else "rt", hx(s)] for s in S] + [["exts"]]
+                cases_id = "lc_%s_%s_%s" % (kind, pv["b"], ph)
+                dcases.append((cases_id, "dict", kind, pv, S, ops))
+    return [StreamSet("tables", "asan", cases, phase2=codes_phase2), StreamSet("decoding", "asan", dcases)]
+
+
+def bitvectors(tier, rng):
+    r = rng.fork("bits")
+    thorough = tier == "thorough"
+    vs = []
+    for n in range(1, 13 if thorough else 9):       # exhaustive small scope
+        for m in (range(1 << n) if n <= (10 if thorough else 6) else [r.below(1 << n) for _ in range(40)]):
+            vs.append([(m >> k) & 1 for k in range(n)])
+    for n in (31, 32, 33, 63, 64, 65, 95, 96, 97, 127, 128, 129, 255, 256, 257, 639, 640, 641, 1000, 2048 + 5):
+        vs.append([0] * n)
+        vs.append([1] * n)
+        vs.append([1] + [0] * (n - 1))
+        vs.append([0] * (n - 1) + [1])
+        for dens in (1, 10, 50, 90, 99):
+            vs.append([1 if r.below(100) < dens else 0 for _ in range(n)])
+    return vs
+
+
+def pack_bits(bits):
+    b = bytearray((len(bits) + 7) // 8 or 1)
+    for k, x in enumerate(bits):
+        if x:
+            b[k // 8] |= 1 << (k % 8)
+    return bytes(b).hex()
+
+
+def c19_streams(tier, rng):
+    thorough = tier == "thorough"
+    r = rng.fork("c19")
+    cases = []
+    vs = bitvectors(tier, rng)
+    impls = [("rg", f) for f in (1, 2, 3, 4, 20, 32)] + [("rrr", sm) for sm in (4, 16, 32, 64, 128)]
+    cid = 0
+    for bits in vs:
+        chosen = impls if (thorough or len(bits) > 12) else r.sample(impls, 3)
+        ops = []
+        for impl, par in chosen:
+            if impl in ("sd", "da") and (sum(bits) == 0):
+                continue  # these builders are documented for vectors with at least one 1
+            ops.append(["bv", impl, par, len(bits), pack_bits(bits)])
+            if r.chance(1, 3):
+                ops.append(["bv", impl, par, len(bits), pack_bits(bits), "reload"])
+        if ops:
+            cases.append(("bv%d" % cid, "bits", "-", {}, [], ops))
+            cid += 1
+    # wavelet trees (at least two distinct symbols; the degenerate shapes are recorded findings K9/K10)
+    for alpha in (2, 3, 17, 256):
+        for n in (2, 3, 100, 1000 if thorough else 300):
+            seq = [r.below(alpha) for _ in range(n)]
+            if len(set(seq)) < 2:
+                seq[0], seq[-1] = 0, 1
+            for impl in ("wt", "wtnp"):
+                ops = [["wt", impl, ",".join(map(str, seq))], ["wt", impl, ",".join(map(str, seq)), "reload"]]
+                cases.append(("wt%d" % cid, "bits", "-", {}, [], ops))
+                cid += 1
+    # the other bundled variants and the degenerate wavelet-tree shapes
+    var = []
+    for n in (4, 128, 256, 512, 1000, 5000):
+        for dens in (2, 50, 98):
+            bits = [1 if r.below(100) < dens else 0 for _ in range(n)]
+            bits[0] = 1
+            for impl in ("sd", "da"):
+                var.append(("var%d" % cid, "bits", "-", {}, [], [["bv", impl, 0, n, pack_bits(bits)], ["bv", impl, 0, n, pack_bits(bits), "reload"]]))
+                cid += 1
+    var.append(("var%d" % cid, "bits", "-", {}, [], [["bv", "sd", 0, 2, pack_bits([1, 1])]]))
+    var.append(("var%d" % (cid + 1), "bits", "-", {}, [], [["wt", "wt", "1,1"]]))
+    var.append(("var%d" % (cid + 2), "bits", "-", {}, [], [["wt", "wtnp", "0"]]))
+    var.append(("var%d" % (cid + 3), "bits", "-", {}, [], [["wt", "wtnp", "0,0,0"]]))
+    return [StreamSet("succinct", "asan", cases, timeout=60), StreamSet("variants", "asan", var, timeout=60)]
+
+
+def repair_phase2(case, impl_lines):
+    ops = []
+    k = 0
+    for l in impl_lines:
+        t = l.split()
+        if len(t) >= 6 and t[1] == "RP":
+            src = case[5][k]
+            d = dict(x.split("=", 1) for x in t[2:])
+            ops.append(["rpchk", src[1], src[2], d.get("t", "0"), d.get("bits", "0"), d.get("rules", "-"), d.get("seq", "-")])
+            k += 1
+        elif not l.startswith("FAULT"):
+            ops.append(["rpchk", "0", "-", "0", "0", "-", "-"])
+            k += 1
+    while len(ops) < len(case[5]):
+        ops.append(["rpchk", "0", "-", "0", "0", "-", "-"])
+    return ops
+
+
+def repair_inputs(tier, rng):
+    r = rng.fork("repair")
+    thorough = tier == "thorough"
+    out = []
+    import itertools as it
+    # all sequences over {1,2} with terminators, small scope
+    for n in range(1, 9 if thorough else 7):
+        for t in it.product((1, 2, 0), repeat=n):
+            if t[-1] != 0 or any(t[i] == 0 and t[i + 1] == 0 for i in range(n - 1)) or t[0] == 0:
+                continue
+            out.append(list(t))
+    for k in (2, 3, 4, 5, 8, 16, 33, 40):
+        out.append([7] * k + [0])                                   # runs of one symbol (overlapping pairs)
+    out.append(list(range(1, 200)) + [0])                           # no repeated pair
+    fibw = ["a", "ab"]
+    while len(fibw[-1]) < 600:
+        fibw.append(fibw[-1] + fibw[-2])
+    out.append([ord(ch) for ch in fibw[-1]] + [0])                  # deep rules
+    tm = [1]
+    while len(tm) < 512:
+        tm = tm + [3 - x for x in tm]
+    out.append(tm + [0])
+    # what the dictionaries feed: strings + terminators, incl. byte 255 end markers as RPFC uses
+    for _ in range(30 if thorough else 10):
+        S = gen.g2_dict(r, r.range(2, 60), r.choice([2, 4, 26]), r.choice(["short", "mixed", "mid"]))
+        seq = []
+        for s_ in S:
+            seq += list(s_) + [0]
+        out.append(seq)
+        seq2 = []
+        for s_ in S:
+            seq2 += [0x80] + list(s_) + [255, 0]
+        out.append(seq2)
+    return out
+
+
+def c20_streams(tier, rng):
+    cases = []
+    inputs = repair_inputs(tier, rng)
+    for i in range(0, len(inputs), 8):
+        ops = []
+        for seq in inputs[i:i + 8]:
+            mx = max(seq) + 1 if max(seq) < 255 else 255
+            ops.append(["rp", mx if mx < 256 else 255, ",".join(map(str, seq))])
+        ops.append(["rp", 255, ",".join(map(str, inputs[i])), "reload"])
+        cases.append(("rp%d" % (i // 8), "repair", "-", {}, [], ops))
+    # the five kinds that use Re-Pair: every answer goes through the grammar
+    def fn(kind, pv, S, r):
+        return c01_ops(kind, pv, S, r)
+    dcases = kind_cases(tier, rng, ["RPFC", "RPHTFC", "RPDAC", "HASHRPF", "HASHRPDAC"], fn,
+                        battery=small_battery(tier, rng, 30 if tier == "thorough" else 10), name="g")
+    return [StreamSet("grammars", "asan", cases, phase2=repair_phase2, timeout=60), StreamSet("users", "asan", dcases)]
+
+
+PROPS["C18"] = PropSpec(c18_streams,
+                        "frequency vectors over 256 symbols, all >= 1: uniform, geometric ratios 1.1..3 (both directions), Fibonacci prefixes giving depths 17..30, one dominant symbol, "
+                        "seeded random (sparse, wide range); both code constructions; the exported table is re-validated by the Lean driver (tree rebuilt from the table, paths = table, "
+                        "Kraft = 1, leaves in order for Hu-Tucker, decode∘encode); plus every answer of the kinds that decode through the chunk table, incl. codewords longer than 16 bits; "
+                        "non-trivial = at least 2 operations",
+                        ["the chunk table builder and its subtree escape are compared through the dictionaries' answers, not modelled",
+                         "codeword depth > 32 (total frequency above 2^31) is outside the generated vectors: not reproduced as a defect"],
+                        "theorems about code trees (prefix-free, complete, order-preserving, decode∘encode); the implementation's tables are shown to be tree codes on every run",
+                        ["all 256 frequencies >= 1, as the dictionaries guarantee"])
+PROPS["C19"] = PropSpec(c19_streams,
+                        "bit vectors: all vectors of length <= 6 (thorough <= 10), sampled up to 12, lengths around multiples of 32 and of the sampling rate, all-zero, all-one, single one at either end, densities 1..99 %; "
+                        "BitSequenceRG factor {1,2,3,4,20,32}, RRR sample {4,16,32,64,128}, SDArray, DArray; access/rank0/rank1 at every position, select0/select1 for every rank, before and after save/load; "
+                        "wavelet trees (pointer and pointerless, Huffman shape, identity mapper) over alphabets {1,2,3,17,256}",
+                        ["only BitSequenceRG.rank1 has a theorem; the other structures are compared with the plain definitions"],
+                        "rank1 of BitSequenceRG equals the plain count (theorem); the driver answers r1 through that exact model and everything else from the plain definitions",
+                        [])
+PROPS["C20"] = PropSpec(c20_streams,
+                        "integer sequences with 0 terminators: all sequences over {1,2,0} up to length 6 (thorough 8), runs of one symbol, no repeated pair, Fibonacci and Thue-Morse words (deep rules), "
+                        "the sequences the dictionary constructors build (incl. VByte bytes and 255 end markers); the exported grammar and compacted sequence are re-validated by the Lean driver "
+                        "(rules well-founded, zero-free, expansion = input, identifier width); after save/load; plus every answer of the five kinds that use Re-Pair",
+                        ["pair selection (heap/hash/records of IRePair) is not modelled: the theorems hold for every choice, the actual choice is validated per run"],
+                        "replacement-system theorems (lossless for every run, zero-free and well-founded rules, bits suffice); the implementation's grammars are validated on every run",
+                        [])
